@@ -53,6 +53,7 @@ type Verifier struct {
 	postulated   map[string]bool
 	relied       map[string][]string
 	feasQueries  int
+	funcIDs      map[string]int
 }
 
 func loadVerifier(repo, contractPath string) (*Verifier, error) {
@@ -111,6 +112,21 @@ func (v *Verifier) locTag(name string) int {
 	v.locTags[name] = t
 	return t
 }
+// funcID interns a function constant as a positive reference (900000+k).
+func (v *Verifier) funcID(name string) int {
+	v.mu.Lock()
+	defer v.mu.Unlock()
+	if v.funcIDs == nil {
+		v.funcIDs = map[string]int{}
+	}
+	if id, ok := v.funcIDs[name]; ok {
+		return id
+	}
+	id := 900000 + len(v.funcIDs)
+	v.funcIDs[name] = id
+	return id
+}
+
 func (v *Verifier) noteGlobalRef(name string) {
 	v.mu.Lock()
 	v.globalRefs[name] = true
@@ -508,6 +524,9 @@ func (x *Exec) header(texts []string) string {
 				case "slice":
 					fmt.Fprintf(&sb, "(assert (forall ((r Int)) (! (or (= (sarr (select %s r)) 0) (< (birth (sarr (select %s r))) now!0)) :pattern ((select %s r)))))\n", s, s, s)
 				}
+			}
+			if s == "|mem.ptr#0|" || s == "|map.ptr#0|" {
+				fmt.Fprintf(&sb, "(assert (forall ((a Int) (i Int)) (! (or (= (select (select %s a) i) 0) (< (birth (select (select %s a) i)) now!0)) :pattern ((select (select %s a) i)))))\n", s, s, s)
 			}
 			if strings.HasPrefix(s, "|file#") {
 				fmt.Fprintf(&sb, "(assert (forall ((a Int) (i Int)) (! (and (<= 0 (select (select %s a) i)) (< (select (select %s a) i) 256)) :pattern ((select (select %s a) i)))))\n", s, s, s)
